@@ -200,6 +200,21 @@ def _check_date(e):
             cdf = comp["df"]
             kw = {"cols": {n: _val(r.model, cdf.var(n)) for n in cdf.dag.nodes if (cdf.kind.get(n) == "input" or (n in comp["stop"] and cdf.kind.get(n) != "params")) and cdf.types.get(n)}, "targets": [f"{b}_beitr_arbeitnehmer_m"], "kind": "cap-ceiling", "ceiling": _val(r.model, w2)}
         put(f"C {b} employee contribution never exceeds its value at the assessment ceiling (rate x ceiling)", st, r.backend, r.seconds, "", **kw)
+    # pensioner contributions <= value at the assessment ceiling of the pension sum
+    pvar = comp.get("pension_var")
+    if pvar is not None and "ges_krankenv" in comp["ceil"]:
+        p2 = z3.Real("sum_ges_rente_priv_rente_m#cap")
+        for pn, g_ in sorted(comp.get("pens", {}).items()):
+            gc = z3.substitute(g_, (pvar, p2))
+            r = solve.check([*comp["base"], pvar >= 0, p2 == comp["ceil"]["ges_krankenv"], g_ > gc], 60)
+            st = {"unsat": "discharged", "sat": "refuted"}.get(r.status, "unknown")
+            kw = {}
+            if st == "refuted":
+                cdf = comp["df"]
+                cols = {n: _val(r.model, cdf.var(n)) for n in cdf.dag.nodes if (cdf.kind.get(n) == "input" or (n in comp["stop"] and cdf.kind.get(n) != "params")) and cdf.types.get(n)}
+                cols["sum_ges_rente_priv_rente_m"] = _val(r.model, pvar)
+                kw = {"cols": cols, "targets": [pn], "kind": "cap-ceiling", "ceiling": _val(r.model, p2), "ceiling_col": "sum_ges_rente_priv_rente_m"}
+            put(f"C {pn} never exceeds its value at the assessment ceiling of the pension sum (rate x ceiling)", st, r.backend, r.seconds, "", **kw)
     # Grundrente supplement
     g = "grundr_zuschlag_vor_eink_anr_m"
     if g in T and "ges_rente" in e.params and "grundr_zugangsfaktor_max" in e.params["ges_rente"]:
@@ -258,7 +273,7 @@ def api_replay(it):
         bad = val > it["bound"] + 1e-9
     elif it["kind"] == "cap-ceiling":
         df2 = df.copy()
-        df2["bruttolohn_m"] = [it["ceiling"]]
+        df2[it.get("ceiling_col", "bruttolohn_m")] = [it["ceiling"]]
         val2 = float(popgen.simulate(e, df2, targets=targets)[targets[0]].iloc[0])
         bad = val > val2 + 1e-9
         return bool(bad), {"value": val, "value_at_ceiling": val2}
